@@ -70,6 +70,7 @@ def run_one(prop, plan) -> Kernel:
 
 
 _NULL = _Null()
+_WANT_DIGESTS = bool(os.environ.get("OPSIM_DIGESTS"))
 
 
 def make_plan(prop, seed, tier, i):
@@ -103,6 +104,8 @@ def work_chunk(args):
             res["evaluations"] += 1
             continue
         res["evaluations"] += 1
+        if _WANT_DIGESTS:
+            res.setdefault("digests", []).append((i, k.digest(), sorted(v.sig for v in k.violations)))
         res["events"] += len(k.log)
         res["probes"].update(k.probes)
         res["faults"].update(k.faults)
@@ -261,6 +264,13 @@ def check(pid, tier, seed, workers, replay=None, runs_override=None):
             ex.shutdown(wait=False, cancel_futures=True)
             return 2
         ex.shutdown()
+    if _WANT_DIGESTS:
+        allr = list(results)
+        results = allr
+        with open(os.environ["OPSIM_DIGESTS"], "w") as f:
+            for r in allr:
+                for i, d, sg in r.get("digests", []):
+                    f.write(f"{i} {d} {','.join(sg)}\n")
     for r in results:
         for key in ("evaluations", "nontrivial", "sim_time", "steps", "switches", "rechecks",
                     "viol_runs", "events"):
@@ -360,9 +370,10 @@ def check(pid, tier, seed, workers, replay=None, runs_override=None):
     extra = getattr(prop, "coverage_extra", None)
     if extra:
         ev["coverage"].update(extra(tier))
-    os.makedirs(os.path.join(ROOT, "evidence"), exist_ok=True)
-    with open(os.path.join(ROOT, "evidence", f"{pid}.json"), "w") as f:
-        json.dump(ev, f, indent=1, sort_keys=True, default=str)
+    if not os.environ.get("OPSIM_NO_EVIDENCE"):
+        os.makedirs(os.path.join(ROOT, "evidence"), exist_ok=True)
+        with open(os.path.join(ROOT, "evidence", f"{pid}.json"), "w") as f:
+            json.dump(ev, f, indent=1, sort_keys=True, default=str)
     print(f"{pid}: {agg['evaluations']} runs, {len(agg['distinct'])} distinct non-trivial, "
           f"{agg['viol_runs']} violating ({len(reported)} unlisted signature(s), "
           f"{sum(known_hits.values())} known), {wall:.1f}s, exit {exit_code}")
